@@ -9,115 +9,69 @@ import (
 
 func c06itoa(i int) string { return strconv.Itoa(i) }
 
-// C06: structural facts that one comparison or one missing `defer` decides.
-//   - for each of the five loops: is every `….HandleDeposit(…)` call lexically inside a function literal that (a) is called
-//     once per item from inside a `for … range` body and (b) starts with `defer func() { … recover() … }()` ?
-//   - RetryV1: does the error branch right after `msg, err := ….HandleDeposit(…)` mention `msg` (nil there)?
-//   - events.Listener.parseDeposit: the bound N of the guard `len(dl.Topics) < N` that precedes `dl.Topics[1]`
+// C06: structural facts that one comparison or one missing `defer` decides. Anchors are located by SHAPE (no names of
+// locals, receivers or unexported helpers); a fact whose anchor has moved out of reach is reported unavailable (`none`).
+//
+//   iso<Site> : Option (Bool × Nat)   for each of the five loops. The "isolation unit" of a `….HandleDeposit(…)` call is the
+//               innermost function literal around it, or — when the call sits in a same-file helper that the anchored
+//               function calls from a loop body (one level) — that helper. Bool: every unit begins with
+//               `defer … recover() …` and is invoked from inside a loop body of the anchored function; Nat: number of
+//               loops between a HandleDeposit call and the beginning of its unit (0: the unit is per deposit).
+//               none: no HandleDeposit call reachable in the function or one level of same-file helpers.
+//   retryV1ErrUsesMsg : Option Bool   RetryV1: in the unit, the error branch right after `<m>, <e> := ….HandleDeposit(…)`
+//               mentions <m> (nil there). none: no such assignment followed by an `if <e> != nil`.
+//   topicsGuard : Option Nat          events.Listener.parseDeposit: the largest N such that a guard before the first `X.Topics[1]`
+//               returns when `len(X.Topics) < N` (0 when `X.Topics[1]` is read without any such guard). none: no `….Topics[1]`.
 func init() {
 	extractors["C06"] = func(o *Out) {
-		type site struct{ file, recv, fn, label string }
+		type site struct{ file, recv, fn, def string }
 		sites := []site{
-			{"chains/evm/listener/eventHandlers/deposit.go", "DepositEventHandler", "ProcessDeposits", "evm.ProcessDeposits"},
-			{"chains/evm/listener/eventHandlers/retry.go", "RetryV1EventHandler", "HandleEvents", "evm.RetryV1"},
-			{"chains/substrate/listener/event-handlers.go", "FungibleTransferEventHandler", "ProcessDeposits", "substrate.ProcessDeposits"},
-			{"chains/substrate/listener/event-handlers.go", "RetryEventHandler", "HandleEvents", "substrate.Retry"},
-			{"chains/btc/listener/event-handlers.go", "FungibleTransferEventHandler", "ProcessDeposits", "btc.ProcessDeposits"},
+			{"chains/evm/listener/eventHandlers/deposit.go", "DepositEventHandler", "ProcessDeposits", "isoEvmProcess"},
+			{"chains/evm/listener/eventHandlers/retry.go", "RetryV1EventHandler", "HandleEvents", "isoEvmRetryV1"},
+			{"chains/substrate/listener/event-handlers.go", "FungibleTransferEventHandler", "ProcessDeposits", "isoSubProcess"},
+			{"chains/substrate/listener/event-handlers.go", "RetryEventHandler", "HandleEvents", "isoSubRetry"},
+			{"chains/btc/listener/event-handlers.go", "FungibleTransferEventHandler", "ProcessDeposits", "isoBtcProcess"},
 		}
-		rows := []string{}
+		var retryUnits []*ast.BlockStmt // isolation units of RetryV1 (for the error-branch fact)
 		for _, s := range sites {
-			fd := FindFunc(o.ParseFile(s.file), s.recv, s.fn)
-			calls, isolated, innerLoops := 0, 0, 0
+			f := o.ParseFile(s.file)
+			fd := FindFunc(f, s.recv, s.fn)
+			calls, good, loops := 0, 0, 0
+			var units []*ast.BlockStmt
 			if fd != nil {
-				// stack-based walk: remember enclosing nodes
-				var stack []ast.Node
-				ast.Inspect(fd.Body, func(n ast.Node) bool {
-					if n == nil {
-						stack = stack[:len(stack)-1]
-						return true
-					}
-					stack = append(stack, n)
-					c, ok := n.(*ast.CallExpr)
-					if !ok {
-						return true
-					}
-					sel, ok := c.Fun.(*ast.SelectorExpr)
-					if !ok || sel.Sel.Name != "HandleDeposit" {
-						return true
-					}
-					calls++
-					// innermost enclosing FuncLit
-					for i := len(stack) - 1; i >= 0; i-- {
-						switch stack[i].(type) {
-						case *ast.RangeStmt, *ast.ForStmt:
-							innerLoops++ // a loop between the call and its closure: the closure is not per deposit
-						}
-						fl, ok := stack[i].(*ast.FuncLit)
-						if !ok {
-							continue
-						}
-						// (b) first statement is a deferred closure that calls recover()
-						rec := false
-						if len(fl.Body.List) > 0 {
-							if d, ok := fl.Body.List[0].(*ast.DeferStmt); ok {
-								Walk(d.Call, func(m ast.Node) bool {
-									if cc, ok := m.(*ast.CallExpr); ok && Src(cc.Fun) == "recover" {
-										rec = true
-									}
-									return true
-								})
-							}
-						}
-						// (a) the literal is the callee of a call that sits inside a range body, with no other FuncLit between
-						perItem := false
-						if i >= 1 {
-							if call, ok := stack[i-1].(*ast.CallExpr); ok && call.Fun == ast.Expr(fl) {
-								for j := i - 2; j >= 0; j-- {
-									if _, ok := stack[j].(*ast.FuncLit); ok {
-										break
-									}
-									if _, ok := stack[j].(*ast.RangeStmt); ok {
-										perItem = true
-										break
-									}
-								}
-							}
-						}
-						if rec && perItem {
-							isolated++
-						}
-						break
-					}
-					return true
-				})
+				c06Scan(f, fd.Body, nil, false, 1, &calls, &good, &loops, &units)
 			}
-			o.Facts["isolation:"+s.label] = map[string]int{"HandleDeposit_calls": calls, "inside_recovered_per_item_closure": isolated, "loops_between_call_and_closure": innerLoops}
-			ok := "false"
-			if calls > 0 && calls == isolated {
-				ok = "true"
+			o.Facts["isolation:"+s.def] = map[string]int{"HandleDeposit_calls": calls, "in_recovered_per_item_unit": good, "loops_between_call_and_unit": loops}
+			if calls == 0 {
+				o.Unavailable(s.def, "no HandleDeposit call found in "+s.recv+"."+s.fn+" or in a same-file helper it calls from a loop")
 			}
-			rows = append(rows, "("+LeanStr(s.label)+", "+ok+", "+c06itoa(innerLoops)+")")
+			b := "false"
+			if calls > 0 && calls == good {
+				b = "true"
+			}
+			o.Lean.WriteString("def " + s.def + " : Option (Bool × Nat) := " + LeanOpt(calls > 0, b+", "+c06itoa(loops)) + "\n")
+			if s.def == "isoEvmRetryV1" {
+				retryUnits = units
+			}
 		}
-		o.Lean.WriteString("/-- loop ↦ (every HandleDeposit call sits in a closure, called from a range body, that begins with a deferred recover;\n    number of loops between the call and that closure) -/\n")
-		o.Lean.WriteString("def isolated : List (String × Bool × Nat) := [" + strings.Join(rows, ", ") + "]\n\n")
+		o.Lean.WriteString("\n")
 
-		// RetryV1 error branch
-		uses, found := false, false
-		fd := FindFunc(o.ParseFile("chains/evm/listener/eventHandlers/retry.go"), "RetryV1EventHandler", "HandleEvents")
-		if fd != nil {
-			Walk(fd.Body, func(n ast.Node) bool {
+		// RetryV1 error branch (inside the isolation unit, wherever it lives)
+		found, uses := false, false
+		for _, u := range retryUnits {
+			Walk(u, func(n ast.Node) bool {
 				bl, ok := n.(*ast.BlockStmt)
 				if !ok {
 					return true
 				}
 				for i, st := range bl.List {
 					a, ok := st.(*ast.AssignStmt)
-					if !ok || len(a.Lhs) != 2 || len(a.Rhs) != 1 || !strings.Contains(Src(a.Rhs[0]), ".HandleDeposit(") {
+					if !ok || len(a.Lhs) != 2 || len(a.Rhs) != 1 || !c06IsHandleDeposit(a.Rhs[0]) {
 						continue
 					}
-					msgVar := Src(a.Lhs[0])
+					msgVar, errVar := Src(a.Lhs[0]), Src(a.Lhs[1])
 					if i+1 < len(bl.List) {
-						if is, ok := bl.List[i+1].(*ast.IfStmt); ok && Src(is.Cond) == "err != nil" {
+						if is, ok := bl.List[i+1].(*ast.IfStmt); ok && c06IsNotNil(is.Cond, errVar) {
 							found = true
 							Walk(is.Body, func(m ast.Node) bool {
 								if id, ok := m.(*ast.Ident); ok && id.Name == msgVar {
@@ -133,40 +87,273 @@ func init() {
 		}
 		o.Facts["retryV1_error_branch_found"] = found
 		o.Facts["retryV1_error_branch_mentions_message"] = uses
-		o.Lean.WriteString("/-- RetryV1: the `if err != nil` branch after HandleDeposit was found / mentions the (nil) message -/\n")
-		o.Lean.WriteString("def retryV1ErrBranchFound : Bool := " + map[bool]string{true: "true", false: "false"}[found] + "\n")
-		o.Lean.WriteString("def retryV1ErrBranchUsesMsg : Bool := " + map[bool]string{true: "true", false: "false"}[uses] + "\n\n")
+		if !found {
+			o.Unavailable("retryV1ErrUsesMsg", "no `<m>, <e> := ….HandleDeposit(…)` followed by `if <e> != nil` in the isolation unit of RetryV1")
+		}
+		o.Lean.WriteString("def retryV1ErrUsesMsg : Option Bool := " + LeanOpt(found, map[bool]string{true: "true", false: "false"}[uses]) + "\n\n")
 
-		// parseDeposit topics guard
-		guard := "none"
-		pd := FindFunc(o.ParseFile("chains/evm/calls/events/listener.go"), "Listener", "parseDeposit")
-		if pd != nil {
-			seenUse := false
-			for _, st := range pd.Body.List {
-				if strings.Contains(Src(st), "dl.Topics[1]") {
-					seenUse = true
-				}
-				is, ok := st.(*ast.IfStmt)
-				if !ok || seenUse {
+		// parseDeposit topics guard, by shape: first `X.Topics[1]`, guards `len(X.Topics) < N` (either spelling) before it that return
+		lf := o.ParseFile("chains/evm/calls/events/listener.go")
+		consts := c06Consts(lf)
+		guard, located := 0, false
+		if lf != nil {
+			for _, d := range lf.Decls {
+				fd, ok := d.(*ast.FuncDecl)
+				if !ok || fd.Body == nil || located {
 					continue
 				}
-				be, ok := is.Cond.(*ast.BinaryExpr)
-				if !ok || be.Op != token.LSS || Src(be.X) != "len(dl.Topics)" {
-					continue
-				}
-				returns := false
-				for _, b := range is.Body.List {
-					if _, ok := b.(*ast.ReturnStmt); ok {
-						returns = true
+				subject := ""
+				for _, st := range fd.Body.List {
+					// does this top-level statement read <subject>.Topics[1] ?
+					Walk(st, func(n ast.Node) bool {
+						ix, ok := n.(*ast.IndexExpr)
+						if ok && subject == "" && Src(ix.Index) == "1" {
+							if sel, ok := ix.X.(*ast.SelectorExpr); ok && sel.Sel.Name == "Topics" {
+								subject = Src(sel.X)
+							}
+						}
+						return true
+					})
+					if subject != "" {
+						break
 					}
 				}
-				if lit, ok := be.Y.(*ast.BasicLit); ok && lit.Kind == token.INT && returns {
-					guard = "some " + lit.Value
+				if subject == "" {
+					continue
+				}
+				located = true
+				for _, st := range fd.Body.List {
+					if strings.Contains(Src(st), subject+".Topics[1]") {
+						break
+					}
+					is, ok := st.(*ast.IfStmt)
+					if !ok || is.Init != nil {
+						continue
+					}
+					returns := false
+					for _, b := range is.Body.List {
+						if _, ok := b.(*ast.ReturnStmt); ok {
+							returns = true
+						}
+					}
+					if n, ok := c06LenBelow(is.Cond, "len("+subject+".Topics)", consts); ok && returns && n > guard {
+						guard = n
+					}
 				}
 			}
 		}
 		o.Facts["parseDeposit_topics_guard"] = guard
-		o.Lean.WriteString("/-- `if len(dl.Topics) < N { return … }` before the first `dl.Topics[1]` in parseDeposit -/\n")
-		o.Lean.WriteString("def topicsGuard : Option Nat := " + guard + "\n")
+		if !located {
+			o.Unavailable("topicsGuard", "no `<x>.Topics[1]` read found in chains/evm/calls/events/listener.go")
+		}
+		o.Lean.WriteString("def topicsGuard : Option Nat := " + LeanOpt(located, c06itoa(guard)) + "\n")
 	}
+}
+
+func c06IsHandleDeposit(e ast.Expr) bool {
+	c, ok := e.(*ast.CallExpr)
+	if !ok {
+		return false
+	}
+	sel, ok := c.Fun.(*ast.SelectorExpr)
+	return ok && sel.Sel.Name == "HandleDeposit"
+}
+
+// c06IsNotNil: `v != nil` or `nil != v`
+func c06IsNotNil(e ast.Expr, v string) bool {
+	if p, ok := e.(*ast.ParenExpr); ok {
+		return c06IsNotNil(p.X, v)
+	}
+	be, ok := e.(*ast.BinaryExpr)
+	if !ok || be.Op != token.NEQ {
+		return false
+	}
+	return (Src(be.X) == v && Src(be.Y) == "nil") || (Src(be.Y) == v && Src(be.X) == "nil")
+}
+
+// c06Consts: package-level integer constants of a file
+func c06Consts(f *ast.File) map[string]int {
+	m := map[string]int{}
+	if f == nil {
+		return m
+	}
+	for _, d := range f.Decls {
+		gd, ok := d.(*ast.GenDecl)
+		if !ok || gd.Tok != token.CONST {
+			continue
+		}
+		for _, sp := range gd.Specs {
+			vs, ok := sp.(*ast.ValueSpec)
+			if !ok {
+				continue
+			}
+			for i, n := range vs.Names {
+				if i < len(vs.Values) {
+					if lit, ok := vs.Values[i].(*ast.BasicLit); ok && lit.Kind == token.INT {
+						if v, err := strconv.Atoi(lit.Value); err == nil {
+							m[n.Name] = v
+						}
+					}
+				}
+			}
+		}
+	}
+	return m
+}
+
+// c06LenBelow: the condition is true exactly when <lenExpr> < N; returns N. Accepts `len < N`, `N > len`, `len <= N-1`, `N-1 >= len`,
+// `!(len >= N)`, and a disjunction one of whose disjuncts has such a form.
+func c06LenBelow(e ast.Expr, lenExpr string, consts map[string]int) (int, bool) {
+	num := func(x ast.Expr) (int, bool) {
+		if lit, ok := x.(*ast.BasicLit); ok && lit.Kind == token.INT {
+			v, err := strconv.Atoi(lit.Value)
+			return v, err == nil
+		}
+		if id, ok := x.(*ast.Ident); ok {
+			v, ok := consts[id.Name]
+			return v, ok
+		}
+		return 0, false
+	}
+	switch x := e.(type) {
+	case *ast.ParenExpr:
+		return c06LenBelow(x.X, lenExpr, consts)
+	case *ast.UnaryExpr:
+		if x.Op == token.NOT {
+			if p, ok := x.X.(*ast.ParenExpr); ok {
+				if be, ok := p.X.(*ast.BinaryExpr); ok {
+					switch {
+					case be.Op == token.GEQ && Src(be.X) == lenExpr:
+						return num(be.Y)
+					case be.Op == token.LEQ && Src(be.Y) == lenExpr:
+						return num(be.X)
+					}
+				}
+			}
+		}
+	case *ast.BinaryExpr:
+		switch {
+		case x.Op == token.LOR:
+			if n, ok := c06LenBelow(x.X, lenExpr, consts); ok {
+				return n, true
+			}
+			return c06LenBelow(x.Y, lenExpr, consts)
+		case x.Op == token.LSS && Src(x.X) == lenExpr:
+			return num(x.Y)
+		case x.Op == token.GTR && Src(x.Y) == lenExpr:
+			return num(x.X)
+		case x.Op == token.LEQ && Src(x.X) == lenExpr:
+			n, ok := num(x.Y)
+			return n + 1, ok
+		case x.Op == token.GEQ && Src(x.Y) == lenExpr:
+			n, ok := num(x.X)
+			return n + 1, ok
+		}
+	}
+	return 0, false
+}
+
+// c06Scan walks `body` looking for HandleDeposit calls. `unit` is the innermost isolation unit entered so far (a FuncLit body,
+// or the body of a helper), `unitOK` whether that unit begins with a deferred recover and was invoked from a loop body.
+// depth: how many levels of same-file helper calls may still be followed.
+func c06Scan(f *ast.File, body ast.Node, unit *ast.BlockStmt, unitOK bool, depth int, calls, good, loops *int, units *[]*ast.BlockStmt) {
+	// stack of enclosing nodes inside `body`
+	var stack []ast.Node
+	inLoop := func(upto int) bool { // is stack[upto] inside a loop body (within this body, not crossing a FuncLit)?
+		for j := upto - 1; j >= 0; j-- {
+			switch stack[j].(type) {
+			case *ast.FuncLit:
+				return false
+			case *ast.RangeStmt, *ast.ForStmt:
+				return true
+			}
+		}
+		return false
+	}
+	startsWithRecover := func(b *ast.BlockStmt) bool {
+		if b == nil || len(b.List) == 0 {
+			return false
+		}
+		d, ok := b.List[0].(*ast.DeferStmt)
+		if !ok {
+			return false
+		}
+		rec := false
+		Walk(d.Call, func(m ast.Node) bool {
+			if cc, ok := m.(*ast.CallExpr); ok && Src(cc.Fun) == "recover" {
+				rec = true
+			}
+			return true
+		})
+		return rec
+	}
+	ast.Inspect(body, func(n ast.Node) bool {
+		if n == nil {
+			stack = stack[:len(stack)-1]
+			return true
+		}
+		stack = append(stack, n)
+		c, ok := n.(*ast.CallExpr)
+		if !ok {
+			return true
+		}
+		if c06IsHandleDeposit(c) {
+			*calls++
+			// innermost FuncLit inside this body, else the unit we came in with
+			nl := 0
+			u, uOK := unit, unitOK
+			for i := len(stack) - 1; i >= 0; i-- {
+				switch x := stack[i].(type) {
+				case *ast.RangeStmt, *ast.ForStmt:
+					nl++
+				case *ast.FuncLit:
+					u = x.Body
+					called := i >= 1
+					if called {
+						call, ok := stack[i-1].(*ast.CallExpr)
+						called = ok && call.Fun == ast.Expr(x)
+					}
+					uOK = startsWithRecover(x.Body) && called && (inLoop(i-1) || unitOK)
+					i = -1 // stop
+				}
+			}
+			*loops += nl
+			if u != nil && uOK {
+				*good++
+			}
+			if u != nil {
+				*units = append(*units, u)
+			}
+			return true
+		}
+		// one level of same-file helper: a call `recv.name(…)` / `name(…)` from inside a loop body, to a function declared in this file
+		if depth > 0 && f != nil && inLoop(len(stack)-1) {
+			name := ""
+			switch fn := c.Fun.(type) {
+			case *ast.Ident:
+				name = fn.Name
+			case *ast.SelectorExpr:
+				if _, ok := fn.X.(*ast.Ident); ok {
+					name = fn.Sel.Name
+				}
+			}
+			if name != "" {
+				for _, d := range f.Decls {
+					if hd, ok := d.(*ast.FuncDecl); ok && hd.Name.Name == name && hd.Body != nil && hd.Body != body {
+						has := false
+						Walk(hd.Body, func(m ast.Node) bool {
+							if cc, ok := m.(*ast.CallExpr); ok && c06IsHandleDeposit(cc) {
+								has = true
+							}
+							return true
+						})
+						if has {
+							c06Scan(f, hd.Body, hd.Body, startsWithRecover(hd.Body), 0, calls, good, loops, units)
+						}
+					}
+				}
+			}
+		}
+		return true
+	})
 }
